@@ -22,6 +22,16 @@
         pack is not provable (forked processes share layouts) and is a hypothesis wherever identity is claimed
         (premise "no other live object has v's id pack" of c03_echo_identity_hops).  The harness runs a real
         three-party chain with the oracle only.
+   (E4) One arrival at a time.  [transfer] is atomic; the real _unbox is not when the class of the object is unknown to
+        the receiver: _netref_factory waits for HANDLE_INSPECT and serves other messages meanwhile.  All theorems about
+        [transfer] / [run] speak of histories in which no arrival is dispatched while another one waits for the class.
+        The nested case is modelled separately ([nested_arrival]): c03_one_proxy_nested_when_rechecked is the clause
+        "one proxy per object" under the generated fact factory_rechecks_cache_after_inspect, and
+        c03_one_proxy_nested_refuted is the witness that without it (the tree before the proposed repair) the same
+        object gets TWO live proxies.  The harness produces the history (two requests in flight carrying one object).
+   (E5) Objects carried by an exception (raise ValueError([1, 2])) do not travel through _box at all: the exception
+        record is C09's subject (arguments that are not plain values arrive as their repr text).  "Every other object
+        reaches the peer as a reference" is claimed for request arguments and results only.
    (E3) pickle: obtain / deliver are proved only as plumbing (c03_obtain_deliver_plumbing_partial,
         c03_deliver_then_operate_partial); "equal" is pickle's own contract and is checked by the harness oracle. *)
 From Coq Require Import String.
@@ -303,6 +313,31 @@ Proof.
 Qed.
 Print Assumptions c03_echo_refuted_after_id_pack_change.
 
+(* 5d. (E4) the same object arriving twice, the second arrival dispatched while the first waits for the class.
+       Under the generated fact (the receiver looks at the proxy cache again after the wait) both arrivals are ONE proxy,
+       it counts 2 and one proxy was made ... *)
+Theorem c03_one_proxy_nested_when_rechecked : forall k r,
+  Gen_box.factory_rechecks_cache_after_inspect = true -> lookup k (cache r) = None ->
+  exists n r', nested_arrival Gen_box.factory_rechecks_cache_after_inspect k r = ((POther (proxy_name n), POther (proxy_name n)), r') /\
+    lookup k (cache r') = Some (n, 2) /\ made r' = made r ++ [k].
+Proof.
+  intros k r F H. rewrite F, (nested_arrival_rechecked k r H). eexists _, _. split; [reflexivity|].
+  cbn [cache made]. split; [apply lookup_update_same|reflexivity].
+Qed.
+Print Assumptions c03_one_proxy_nested_when_rechecked.
+
+(* ... and without it the clause "received again while a proxy for it is alive = that same proxy" FAILS: the two arrivals
+   are two different proxies, both alive, each counting 1, and the cache knows only the later one *)
+Theorem c03_one_proxy_nested_refuted : forall k r,
+  Gen_box.factory_rechecks_cache_after_inspect = false -> lookup k (cache r) = None ->
+  exists n m r', nested_arrival Gen_box.factory_rechecks_cache_after_inspect k r = ((POther (proxy_name m), POther (proxy_name n)), r') /\
+    POther (proxy_name m) <> POther (proxy_name n) /\ lookup k (cache r') = Some (m, 1) /\ made r' = (made r ++ [k]) ++ [k].
+Proof.
+  intros k r F H. rewrite F, (nested_arrival_stale k r H). eexists _, _, _. split; [reflexivity|].
+  split; [intros E; apply proxy_name_inj in E; lia|]. cbn [cache made]. split; [apply lookup_update_same|reflexivity].
+Qed.
+Print Assumptions c03_one_proxy_nested_refuted.
+
 (* 7. all orders of sending, echoing back, re-receiving, dropping and operating through proxies: no step of a
       history of well-behaved parties raises, and the invariant the theorems above assume holds throughout *)
 Theorem c03_histories : forall P idp, idp_enc P idp -> forall ops,
@@ -401,3 +436,11 @@ Example c03_ex_history :
      Ok (PTuple [POther 4; POther 1]); Ok PNone; Ok (POther 1); Ok PNone; Ok (POther 7); Ok PNone] /\
   mlog (wa (snd (run PP std_bladder std_uladder idp_small hist world0))) = [(POther 4, 7)].
 Proof. vm_compute. split; reflexivity. Qed.
+
+(* 5d: both hypotheses' shapes occur: an empty receiver, and the fact has one of the two values on every tree *)
+Example c03_ex_nested :
+  lookup ([111%N], 1, 12) (cache side0) = None /\
+  fst (nested_arrival true ([111%N], 1, 12) side0) = (POther 1, POther 1) /\
+  fst (nested_arrival false ([111%N], 1, 12) side0) = (POther 3, POther 1) /\
+  (Gen_box.factory_rechecks_cache_after_inspect = true \/ Gen_box.factory_rechecks_cache_after_inspect = false).
+Proof. repeat split; try reflexivity. exact tie_factory. Qed.
